@@ -11,7 +11,12 @@ if len(sys.argv) > 2:
         d = json.load(open(m))
         if d.get("breaks_property") == pid: ideas.append("  - " + d["change"])
     if ideas:
-        avoid = "\nOther developers already tried the following ideas; yours must be DIFFERENT in kind (another code site or another mechanism), and at least one of your two changes should involve " + \
+        if sys.argv[2] == "avoid3":
+            avoid += ("\nThis time prefer a change in code the property depends on INDIRECTLY rather than in the function everyone looks at first: helper functions, " +
+                      "Clone / Drop / Default / From impls, builder methods (Opts / HistogramOpts: namespace, subsystem, const_label(s), variable_label(s), buckets, From<Opts>), " +
+                      "the accessor layer of the data model (src/plain_model.rs and src/proto_ext.rs must stay in step), value.rs / metrics.rs / desc.rs helpers, " +
+                      "label-pair construction and sorting, the local (unsync) variants, vector `remove` / `reset` paths, or the order of two steps that only matters in a longer history.\n")
+        avoid += "\nOther developers already tried the following ideas; yours must be DIFFERENT in kind (another code site or another mechanism), and at least one of your two changes should involve " + \
                 "either two cooperating sites that each look fine alone or a multi-step history / particular interleaving:\n" + "\n".join(ideas) + "\n"
 for l in open('/verif/properties.jsonl'):
     p = json.loads(l)
